@@ -28,6 +28,7 @@ import (
 	"sort"
 	"strconv"
 	"strings"
+	"sync"
 	"time"
 
 	"github.com/daeuniverse/dae/common/consts"
@@ -160,13 +161,15 @@ func c9Foreign(q dnsmessage.Question, kind string) dnsmessage.Question {
 // ---- observation record -----------------------------------------------------------------------------------
 
 type c9Exchange struct {
-	via       string // "fwd", "udp", "tcp"
+	via       string // "fwd" = one ForwardDNS call on a cached forwarder; "udp"/"tcp" = one request on the wire
 	q         c9Q
 	start     int
-	end       int // 0 while in flight (layer 1 only)
+	end       int // 0 while in flight ("fwd" only)
 	behaviour string
-	ok        bool
+	ok        bool // "fwd": returned without error and the message is a genuine answer to q
+	cacheable bool // "fwd": ok and rcode NOERROR
 	thread    int
+	errs      string
 }
 
 type c9QueryObs struct {
@@ -234,7 +237,7 @@ func (e *c9Env) choose(what string) string {
 
 // ---- layer 1: scripted forwarder / layers 2,3: spy around the real forwarder ------------------------------------
 
-var c9L1Behaviours = []string{"ok", "foreign-name", "foreign-type", "truncated", "error", "slow"}
+var c9L1Behaviours = []string{"ok", "nxdomain", "foreign-name", "foreign-type", "truncated", "error", "slow"}
 var c9L2Behaviours = []string{"ok", "twice", "late", "foreign-name", "truncated", "malformed", "nothing", "sockerr"}
 var c9L3Behaviours = []string{"ok", "defer", "swap-id", "twice", "close", "silent"}
 
@@ -246,16 +249,37 @@ func (f *c9Spy) ForwardDNS(ctx context.Context, data []byte) (*dnsmessage.Msg, e
 	f.inflight++
 	f.uses++
 	defer func() { f.inflight-- }()
-	if f.real != nil {
-		return f.real.ForwardDNS(ctx, data)
-	}
 	var q dnsmessage.Msg
 	if err := q.Unpack(data); err != nil || len(q.Question) == 0 {
 		return nil, fmt.Errorf("scripted upstream: bad query")
 	}
 	ex := &c9Exchange{via: "fwd", q: c9QOf(q.Question[0]), start: e.next(), thread: vsched.ThreadID()}
 	e.exchanges = append(e.exchanges, ex)
-	defer func() { ex.end = e.next() }()
+	var m *dnsmessage.Msg
+	var err error
+	if f.real != nil {
+		ex.behaviour = "real-" + f.l4
+		m, err = f.real.ForwardDNS(ctx, data)
+	} else {
+		m, err = f.scripted(ctx, &q, ex)
+	}
+	ex.end = e.next()
+	if err != nil {
+		ex.errs = err.Error()
+	} else if m != nil && len(m.Question) == 1 && c9QOf(m.Question[0]) == ex.q {
+		ex.ok = true
+		for _, rr := range m.Answer {
+			if !c9RRAnswers(rr, ex.q) {
+				ex.ok = false
+			}
+		}
+		ex.cacheable = ex.ok && m.Rcode == dnsmessage.RcodeSuccess
+	}
+	return m, err
+}
+
+func (f *c9Spy) scripted(ctx context.Context, q *dnsmessage.Msg, ex *c9Exchange) (*dnsmessage.Msg, error) {
+	e := f.env
 	b := e.choose("upstream")
 	ex.behaviour = b
 	if b == "slow" {
@@ -272,8 +296,12 @@ func (f *c9Spy) ForwardDNS(ctx context.Context, data []byte) (*dnsmessage.Msg, e
 	time.Sleep(c9Latency) // the exchange takes (virtual) time: other clients arrive meanwhile
 	switch b {
 	case "ok":
-		ex.ok = true
 		return c9Answer(q.Id, q.Question[0]), nil
+	case "nxdomain":
+		m := c9Answer(q.Id, q.Question[0])
+		m.Answer = nil
+		m.Rcode = dnsmessage.RcodeNameError
+		return m, nil
 	case "foreign-name":
 		return c9Answer(q.Id, c9Foreign(q.Question[0], "name")), nil
 	case "foreign-type":
@@ -588,8 +616,9 @@ func (e *c9Env) setup() error {
 	p := e.p
 	log := VerifQuietLogger()
 	// package-level state that survives an execution
-	responseSlotPool.VerifReset()
-	dnsResponseBufPool.VerifReset()
+	newSlot, newBuf := responseSlotPool.New, dnsResponseBufPool.New
+	responseSlotPool = sync.Pool{New: newSlot}
+	dnsResponseBufPool = sync.Pool{New: newBuf}
 	gopt := &dialer.GlobalOption{Log: log, CheckInterval: time.Second}
 	e.dialer = dialer.NewDialer(&c9NetDialer{env: e}, gopt, dialer.InstanceOption{DisableCheck: true},
 		&dialer.Property{Property: D.Property{Name: "direct", Address: "", Protocol: ""}})
@@ -725,7 +754,7 @@ func C09Scenario(p *C09Params) *vsched.Scenario {
 		e.finished = true
 	}
 	return &vsched.Scenario{Name: p.Name, Body: body, Check: func(r *vsched.Result) (string, any) { return c9Check(p, r) },
-		Outcome: func(r *vsched.Result) string { return c9Outcome(r) }, MaxSteps: p.MaxSteps, HorizonNs: int64(120 * time.Second)}
+		Outcome: func(r *vsched.Result) string { return c9Outcome(r) }, MaxSteps: p.MaxSteps, HorizonNs: int64(120 * time.Second), CostedSwitch: true}
 }
 
 // ---- oracle (written from the statement only) ----------------------------------------------------------------------
@@ -846,6 +875,9 @@ func c9Check(p *C09Params, r *vsched.Result) (string, any) {
 		if s.CloseCount == 0 {
 			return fmt.Sprintf("upstream UDP socket #%d was never closed (leaked)", s.id), detail
 		}
+		if s.CloseCount > 1 {
+			return fmt.Sprintf("upstream UDP socket #%d saw Close %d times", s.id, s.CloseCount), detail
+		}
 	}
 	for _, c := range e.tcpConns {
 		if c.a.CloseCount == 0 {
@@ -864,7 +896,7 @@ func c9Check(p *C09Params, r *vsched.Result) (string, any) {
 
 func c9CheckCoalescing(e *c9Env) string {
 	type grp struct {
-		ex      []*c9Exchange
+		ex      []*c9Exchange // ForwardDNS calls on a cached forwarder for this question, in start order
 		queries []*c9QueryObs
 		who     []string
 	}
@@ -880,8 +912,10 @@ func c9CheckCoalescing(e *c9Env) string {
 		return g
 	}
 	for _, ex := range e.exchanges {
-		g := get(ex.q)
-		g.ex = append(g.ex, ex)
+		if ex.via == "fwd" {
+			g := get(ex.q)
+			g.ex = append(g.ex, ex)
+		}
 	}
 	for _, co := range e.clients {
 		for qi, qo := range co.queries {
@@ -893,26 +927,33 @@ func c9CheckCoalescing(e *c9Env) string {
 	sort.Slice(order, func(i, j int) bool { return order[i].String() < order[j].String() })
 	for _, q := range order {
 		g := groups[q]
-		if e.p.Layer == 1 {
-			// one resolution at a time per question: two upstream exchanges for it never overlap
-			for i := 0; i < len(g.ex); i++ {
-				for j := i + 1; j < len(g.ex); j++ {
-					a, b := g.ex[i], g.ex[j]
-					if a.end == 0 || b.start < a.end {
-						return fmt.Sprintf("two upstream exchanges for the identical question %s were in flight at the same time (not coalesced)", q)
-					}
+		// one resolution at a time per question: two upstream exchanges for it never overlap
+		// (a UDP attempt followed by its TCP fallback, or a retry, are sequential)
+		for i := 0; i < len(g.ex); i++ {
+			for j := i + 1; j < len(g.ex); j++ {
+				a, b := g.ex[i], g.ex[j]
+				if a.end == 0 || b.start < a.end {
+					return fmt.Sprintf("two upstream exchanges for the identical question %s were in flight at the same time (not coalesced)", q)
 				}
 			}
-			// a correct answer is cached: every other identical question of the run is served from it
-			if len(g.ex) > 1 && g.ex[0].ok {
-				return fmt.Sprintf("question %s was resolved upstream %d times although the first resolution succeeded", q, len(g.ex))
-			}
-		} else if e.deviations == 0 && len(g.ex) > 1 {
-			return fmt.Sprintf("question %s went to the well-behaved upstream %d times", q, len(g.ex))
 		}
-		if len(g.ex) == 1 && (e.p.Layer == 1 || e.deviations == 0) {
-			// one resolution: its result reaches every waiter (all answered, or all fail with the same error)
-			if g.ex[0].ok {
+		// a successful cacheable answer (TTL 300s, the run lasts < 120s) serves every later identical question
+		for i, a := range g.ex {
+			if a.cacheable && i+1 < len(g.ex) {
+				return fmt.Sprintf("question %s was resolved upstream again although an earlier resolution had succeeded", q)
+			}
+		}
+		// all exchanges made by one thread = one resolution (every client asks a question at most once):
+		// its result reaches every waiter — all answered, or all fail with the same error
+		one := len(g.ex) > 0
+		for _, a := range g.ex {
+			if a.thread != g.ex[0].thread {
+				one = false
+			}
+		}
+		if one {
+			last := g.ex[len(g.ex)-1]
+			if last.ok {
 				for i, qo := range g.queries {
 					if qo.err != nil || len(qo.msgs) == 0 {
 						return fmt.Sprintf("%s (%s) got no answer although the one upstream resolution succeeded: err=%v", g.who[i], q, qo.err)
@@ -922,7 +963,7 @@ func c9CheckCoalescing(e *c9Env) string {
 				var first string
 				for i, qo := range g.queries {
 					if qo.err == nil {
-						return fmt.Sprintf("%s (%s) was answered although the one upstream resolution failed (%s)", g.who[i], q, g.ex[0].behaviour)
+						return fmt.Sprintf("%s (%s) was answered although the one upstream resolution failed (%s %s)", g.who[i], q, last.behaviour, last.errs)
 					}
 					if i == 0 {
 						first = qo.err.Error()
@@ -932,7 +973,7 @@ func c9CheckCoalescing(e *c9Env) string {
 				}
 			}
 		}
-		if len(g.ex) == 0 && len(g.queries) > 0 {
+		if len(g.ex) == 0 {
 			for i, qo := range g.queries {
 				if qo.err == nil && len(qo.msgs) > 0 {
 					return fmt.Sprintf("%s (%s) was answered although no upstream was ever asked", g.who[i], q)
@@ -961,7 +1002,7 @@ func c9Detail(e *c9Env) map[string]any {
 	d["clients"] = cl
 	var ex []string
 	for _, x := range e.exchanges {
-		ex = append(ex, fmt.Sprintf("%s %s [%d..%d] %s T%d", x.via, x.q, x.start, x.end, x.behaviour, x.thread))
+		ex = append(ex, fmt.Sprintf("%s %s [%d..%d] %s ok=%v T%d %s", x.via, x.q, x.start, x.end, x.behaviour, x.ok, x.thread, x.errs))
 	}
 	d["upstream_exchanges"] = ex
 	var fw []string
